@@ -31,7 +31,7 @@ def obligations(prop):
         out.append(st)
     # the transported theorems: only looked at when the equalities hold (otherwise they fail for that reason)
     if ok_all:
-        inst = "theories/OmenTrainerGenInst.v"
+        inst = "theories/OmenTrainerGenInst.v" if prop == "C11" else "theories/OmenTrainerGenInstOut.v"
         vo = os.path.join(common.COQ, inst[:-2] + ".vo")
         src = os.path.join(common.COQ, inst)
         if os.path.exists(vo) and os.path.getmtime(vo) >= os.path.getmtime(src):
